@@ -7,8 +7,8 @@
 (*           verif hook in gasestimator.run: gas limit and raw outcome class                *)
 (*   result  what Estimate returned                                                         *)
 (*   recheck independent re-execution by the driver at the returned limit and one below     *)
-(* Every probe must be the one the documented algorithm performs next given the earlier     *)
-(* outcomes, the result must be the algorithm's result, and the C37 statements are checked  *)
+(* The probe at the cap must be at the specification's cap, every later probe must be a     *)
+(* sound step of the search, the result must be the search's result, and the C37 statements are checked  *)
 (* on the re-execution.                                                                     *)
 EXTENDS Estimator, Json, IOUtils
 
@@ -55,17 +55,15 @@ TAtCap == Step(Ev.op = "probe" /\ pc = "cap" /\ Ev.gas = cap
                /\ env' = [env EXCEPT !.used = Ev.used, !.peak = Ev.peak]
                /\ UNCHANGED <<req, mono>>)
 
-TOptimistic == Step(Ev.op = "probe" /\ pc = "optimistic" /\ Ev.gas = Optimistic(env.peak)
-                    /\ OptimisticProbeP(Seen(Ev.out)) /\ UNCHANGED <<req, mono>>)
-
-TBisect == Step(Ev.op = "probe" /\ pc = "bisect" /\ Searching /\ Ev.gas = Mid(lo, hi)
-                /\ BisectP(Seen(Ev.out)) /\ UNCHANGED <<req, mono>>)
+(* every later probe must be a sound search step (strictly inside the current interval);   *)
+(* which one is chosen (optimistic limit, clamped midpoint) is the implementation's business *)
+TSearch == Step(Ev.op = "probe" /\ SoundProbeP(Ev.gas, Seen(Ev.out)) /\ UNCHANGED <<req, mono>>)
 
 (* the result event; the final (probe-less) step of the search is composed with it *)
 TResult == Step(
   /\ Ev.op = "result"
   /\ \/ pc = "done" /\ UNCHANGED <<pc, res>>
-     \/ pc = "bisect" /\ ~Searching /\ Done(TRUE, hi)
+     \/ pc \in {"optimistic", "bisect"} /\ ~Searching /\ Done(TRUE, hi)
   /\ Ev.ok = res'.ok
   /\ (res'.ok => Ev.gas = res'.gas)
   /\ UNCHANGED <<lo, hi, cap, probes, env, req, mono>>)
@@ -85,13 +83,13 @@ TraceInit == /\ pc = "done" /\ lo = 0 /\ hi = 0 /\ cap = 0 /\ res = [ok |-> FALS
              /\ probes = << >> /\ env = Idle /\ l = 1
              /\ req = [callGas |-> 0, blockGas |-> 0, osaka |-> FALSE, feeCap |-> 0, balance |-> 0, value |-> 0, gasCap |-> 0]
              /\ mono = FALSE
-TraceNext == TStart \/ TTransfer \/ TAtCap \/ TOptimistic \/ TBisect \/ TResult \/ TRecheck
+TraceNext == TStart \/ TTransfer \/ TAtCap \/ TSearch \/ TResult \/ TRecheck
 TraceSpec == TraceInit /\ [][TraceNext]_tvars
 
 (* invariants evaluated after every real step *)
 ProbesWithinCapT == \A i \in 1..Len(probes) : probes[i] <= cap \/ (probes[i] = TxGas /\ env.plain /\ i = 1)
 NoRepeatT == \A i, j \in 1..Len(probes) : i < j /\ probes[i] = probes[j] => (probes[i] = TxGas /\ env.plain /\ i = 1)
-IntervalT == pc = "bisect" => lo < hi /\ hi <= cap
+IntervalT == pc \in {"optimistic", "bisect"} => lo < hi /\ hi <= cap
 
 TraceAccepted == TLCGet("stats").diameter - 1 = Len(Trace)
 =============================================================================
